@@ -18,6 +18,23 @@ Theorem C14_model_meets_spec : forall c,
 Proof. exact model_meets_spec. Qed.
 Print Assumptions C14_model_meets_spec.
 
+(* (1') After the repairs of slip (repo_fixes/C14-1 .. C14-27) the guard of find position count remove delete
+   substitute nsubstitute (and -if), search, subseq, replace, reverse, nreverse, map, concatenate is nothing but
+   "bounding indices in range, characters representable, only keywords the function has": for EVERY such call,
+   with any combination of :start :end :key :test :test-not :count (a number or nil) :from-end (:start2 :end2),
+   on nil / list / vector / string, the modelled code returns exactly the one value the language defines. *)
+Theorem C14_guard_is_bounds : forall c, bounds_only (c_fn c) = true ->
+  in_domain c = bounds_ok c && seq_ok (c_seq c) && seq_ok (c_seq2 c) && keywords_ok c &&
+                match c_fn c with FSearch | FReplace => bounds2_ok c | _ => true end.
+Proof. exact guard_is_bounds. Qed.
+Print Assumptions C14_guard_is_bounds.
+Theorem C14_in_range_calls_meet_spec : forall c, bounds_only (c_fn c) = true ->
+  bounds_ok c = true -> seq_ok (c_seq c) = true -> seq_ok (c_seq2 c) = true -> keywords_ok c = true ->
+  match c_fn c with FSearch | FReplace => bounds2_ok c | _ => true end = true ->
+  m_call c = s_call c /\ exists r, s_call c = Some r.
+Proof. exact in_range_calls_meet_spec. Qed.
+Print Assumptions C14_in_range_calls_meet_spec.
+
 (* (1a-1d) the same for the families the property names first, as equalities M = S: every combination
    of :start :end :key :test :from-end (find position count and -if), :count with :from-end (remove
    delete), substitute, remove-duplicates (which occurrences survive) *)
@@ -92,8 +109,8 @@ Proof. exact stable_sort_checker. Qed.
 Print Assumptions C14_stable_sort_call_judged.
 
 (* merge of two ordered sequences is ordered, a permutation of both together, and stable with the
-   elements of the first sequence first (the reference); the Go loop is that merge with the sequences
-   EXCHANGED — always an ordered permutation, equal to the reference when no key occurs in both *)
+   elements of the first sequence first (the reference); the Go loop (repaired by repo_fixes/C14-16)
+   IS that merge: ordered, a permutation, and stable *)
 Theorem C14_merge_reference : forall lt k, swo lt -> forall l1 l2, ordered lt k l1 -> ordered lt k l2 ->
   stable_spec lt k (l1 ++ l2) (s_merge lt k l1 l2).
 Proof. exact merge_spec. Qed.
@@ -103,6 +120,11 @@ Theorem C14_merge_code_sorted_permutation : forall t k l1 l2, test_strict t = tr
   sort_spec (s_test2 t) (key_app k) (l1 ++ l2) (m_merge_lists t k l1 l2).
 Proof. exact m_merge_sorted_perm. Qed.
 Print Assumptions C14_merge_code_sorted_permutation.
+Theorem C14_merge_code_stable : forall t k l1 l2, test_strict t = true ->
+  ordered (s_test2 t) (key_app k) l1 -> ordered (s_test2 t) (key_app k) l2 ->
+  stable_spec (s_test2 t) (key_app k) (l1 ++ l2) (m_merge_lists t k l1 l2).
+Proof. exact m_merge_stable. Qed.
+Print Assumptions C14_merge_code_stable.
 
 (* (4) set functions: the checkers decide the relations the language describes *)
 Theorem C14_union_checker_decides : forall mt l1 l2 r, union_ok mt l1 l2 r = true <-> union_spec mt l1 l2 r.
@@ -175,56 +197,42 @@ Theorem C14_reverse_loops : forall l, m_reverse_list l = rev l /\ go_reverse l =
 Proof. exact reverse_loops. Qed.
 Print Assumptions C14_reverse_loops.
 
-(* (6) outside the guard the faithful model leaves the specification: the known findings, each a
-   concrete call with negb (in_domain c), m_call c = Some r and spec_ok c r = false *)
+(* (6) outside the guard the faithful model leaves the specification: the remaining known findings (the
+   -if-not functions, mismatch :from-end index, fill bounds = length, reduce on an empty range) and the
+   argument order of remove-duplicates :from-end (not a finding), each a concrete call with
+   negb (in_domain c), m_call c = Some r and spec_ok c r = false *)
 Theorem C14_known_findings_refuted : forallb refutes refutation_witnesses = true.
 Proof. exact all_refuted. Qed.
 Print Assumptions C14_known_findings_refuted.
-Theorem C14_test_not_refuted : refutes w_test_not = true /\ refutes w_subst_test_not = true /\ refutes w_setdiff_test_not = true.
-Proof. exact test_not_refuted. Qed.
-Print Assumptions C14_test_not_refuted.
 Theorem C14_if_not_missing_refuted : refutes w_remove_if_not = true /\ refutes w_find_if_not = true /\
   m_call w_remove_if_not = Some (RErr EUndefined) /\ s_call w_remove_if_not = Some (RSeq [0]) /\ s_call w_find_if_not = Some (RElt 1).
 Proof. exact if_not_missing_refuted. Qed.
 Print Assumptions C14_if_not_missing_refuted.
-Theorem C14_count_nil_refuted : refutes w_count_nil = true.
-Proof. exact count_nil_refuted. Qed.
-Print Assumptions C14_count_nil_refuted.
-Theorem C14_substitute_count_refuted : refutes w_subst_count = true /\ refutes w_subst_count0 = true /\ refutes w_subst_count_neg = true.
-Proof. exact substitute_count_refuted. Qed.
-Print Assumptions C14_substitute_count_refuted.
-Theorem C14_count_utf8_refuted : refutes w_count_utf8 = true.
-Proof. exact count_utf8_refuted. Qed.
-Print Assumptions C14_count_utf8_refuted.
-Theorem C14_assoc_refuted : refutes w_assoc_nil = true /\ refutes w_assoc_order = true.
-Proof. exact assoc_refuted. Qed.
-Print Assumptions C14_assoc_refuted.
-Theorem C14_search_refuted : refutes w_search_from_end = true /\ refutes w_search_empty = true.
-Proof. exact search_refuted. Qed.
-Print Assumptions C14_search_refuted.
-Theorem C14_mismatch_refuted : refutes w_mismatch_from_end = true /\ refutes w_mismatch_start = true.
+Theorem C14_mismatch_refuted : refutes w_mismatch_from_end = true.
 Proof. exact mismatch_refuted. Qed.
 Print Assumptions C14_mismatch_refuted.
-Theorem C14_replace_fill_end_refuted : refutes w_replace_end = true /\ refutes w_fill_end = true.
-Proof. exact replace_fill_end_refuted. Qed.
-Print Assumptions C14_replace_fill_end_refuted.
-Theorem C14_nil_sequence_refuted :
-  refutes w_subseq_nil = true /\ refutes w_every_nil = true /\ refutes w_subsetp_nil = true /\
-  refutes w_reduce_nil = true /\ refutes w_map_nil = true /\ refutes w_merge_nil = true.
-Proof. exact nil_sequence_refuted. Qed.
-Print Assumptions C14_nil_sequence_refuted.
-Theorem C14_merge_tie_refuted : refutes w_merge_tie = true.
-Proof. exact merge_tie_refuted. Qed.
-Print Assumptions C14_merge_tie_refuted.
-Theorem C14_some_value_refuted : refutes w_some_value = true.
-Proof. exact some_value_refuted. Qed.
-Print Assumptions C14_some_value_refuted.
+Theorem C14_fill_end_refuted : refutes w_fill_end = true /\ refutes w_fill_start = true.
+Proof. exact fill_end_refuted. Qed.
+Print Assumptions C14_fill_end_refuted.
 Theorem C14_reduce_refuted : refutes w_reduce_empty = true /\ refutes w_reduce_start = true.
 Proof. exact reduce_refuted. Qed.
 Print Assumptions C14_reduce_refuted.
-Theorem C14_remove_duplicates_refuted : refutes w_dups_ne = true /\ refutes w_dups_from_end = true.
+Theorem C14_remove_duplicates_refuted : refutes w_dups_from_end = true.
 Proof. exact remove_duplicates_refuted. Qed.
 Print Assumptions C14_remove_duplicates_refuted.
+
+(* (6') repaired defects (repo_fixes/C14-n.patch): each former refutation witness is now inside the guard, and
+   the model of the repaired code and the specification both give the listed value *)
+Theorem C14_repaired_witnesses : forallb repaired_ok repaired_witnesses = true.
+Proof. exact repaired_all. Qed.
+Print Assumptions C14_repaired_witnesses.
+
+(* set-difference is specified as a relation: its repaired :test-not witness, (set-difference '(1 2) '(2)
+   :test-not 'eql) => (2), is inside the guard and the modelled result passes the checker of (4) *)
+Theorem C14_set_difference_test_not_repaired :
+  in_domain w_setdiff_test_not = true /\ m_call w_setdiff_test_not = Some (RSeq [2]) /\ spec_ok w_setdiff_test_not (RSeq [2]) = true.
+Proof. exact setdiff_test_not_repaired. Qed.
+Print Assumptions C14_set_difference_test_not_repaired.
 
 (* (7) the guard is satisfiable with every keyword in play and non-trivial results *)
 Theorem C14_guard_nonvacuous : forallb in_domain ex_calls = true /\
